@@ -124,7 +124,7 @@ def right_of(term):
             return rs.pop()
         return "phi"
     if t[0] == "var":
-        return "var:" + t[1]
+        return "var:right"       # a variable of type RightType: its assignments are analysed by right_var_defs
     return None
 
 
@@ -135,34 +135,36 @@ def room_key_of(body, recv_term):
         return None, None
     if not mir.mentions(c[2][0], "rooms"):
         return None, None
-    return field_path(c[2][1]), c[2][1]
+    return body.cpath(c[2][1]), c[2][1]
 
 
-def author_eq(guards, actor_paths=None):
+def author_eq(guards, actor_paths=None, body=None):
     """the truth value of a dominating author comparison eq(old author, actor), or None.
     Recognised by one side being a previous-author term."""
     for s, vals, term in guards:
         atom, truth = mir.cond_atoms(term, vals)
         if atom[0] == "call" and atom[1].endswith("::eq") and len(atom[2]) == 2 and truth is not None:
-            paths = [field_path(a) for a in atom[2]]
+            paths = [(body.cpath(a) if body is not None else field_path(a)) for a in atom[2]]
             if any(is_prev_author(p) for p in paths):
                 return truth, paths
     return None, None
 
 
-PREV_AUTHOR = re.compile(r"(old_node\.verifying_key|old_verifying_key|old_key|edge_author|author|node\.node\.verifying_key|edge\.edge\.verifying_key|entry\.1)$")
+# a previous-author term, in canonical (type-rooted) form: the stored row's key carried by the row under validation
+PREV_AUTHOR = re.compile(r"(\.old_node\.verifying_key|\.old_verifying_key|‹NodeDelete›\.node\.verifying_key|‹EdgeDelete›\.edge\.verifying_key|"
+                         r"‹\((Edge|Node)DeletionEntry, Option<Vec<u8>>\)›\.1|‹\(\[u8; 16\], \(NodeDeletionEntry, Option<Vec<u8>>\)\)›\.1\.1|Edge::get_src_author\(\)|\.source_author|\.previous_author)$")
 
 
 def is_prev_author(path):
     return bool(PREV_AUTHOR.search(path))
 
 
-def room_ineq(guards):
+def room_ineq(guards, body=None):
     """a dominating `old room != new room` test: returns (paths) when an eq between two room ids is False"""
     for s, vals, term in guards:
         atom, truth = mir.cond_atoms(term, vals)
         if atom[0] == "call" and atom[1].endswith("::eq") and len(atom[2]) == 2 and truth is False:
-            paths = [field_path(a) for a in atom[2]]
+            paths = [(body.cpath(a) if body is not None else field_path(a)) for a in atom[2]]
             if all("room_id" in p for p in paths):
                 return paths
     return None
@@ -178,19 +180,19 @@ def can_sites(P, body):
         info = {"body": body, "block": bi, "kind": name, "args": args, "guards": g, "loc": body.loc(bi)}
         if name == "can":
             info["right"] = right_of(args[4])
-            info["user"] = field_path(args[1])
-            info["entity"] = field_path(args[2])
-            info["date"] = field_path(args[3])
+            info["user"] = body.cpath(args[1])
+            info["entity"] = body.cpath(args[2])
+            info["date"] = body.cpath(args[3])
         else:
             info["right"] = None
-            info["user"] = field_path(args[1])
-            info["date"] = field_path(args[2])
+            info["user"] = body.cpath(args[1])
+            info["date"] = body.cpath(args[2])
         key, kterm = room_key_of(body, args[0])
         info["room_key"] = key
-        eq, paths = author_eq(g)
+        eq, paths = author_eq(g, body=body)
         info["author_eq"] = eq
         info["author_eq_paths"] = paths
-        info["room_ineq"] = room_ineq(g)
+        info["room_ineq"] = room_ineq(g, body=body)
         out.append(info)
     return out
 
@@ -198,8 +200,9 @@ def can_sites(P, body):
 def right_var_defs(body, varname):
     """for `let required_right = match .. {..}`: [(right, author_eq truth, block)] per assignment"""
     out = []
-    for l, n in body.names.items():
-        if n != varname:
+    # the variable is identified by its type (RightType), not by its spelling
+    for l, n, lty, leaf in body.named_locals():
+        if not re.search(r"RightType$", lty):
             continue
         for (bi, si, rv, lhs) in body.defs().get(l, ()):
             if si is None or len(lhs) != 1:
@@ -209,7 +212,7 @@ def right_var_defs(body, varname):
             if r is None:
                 continue
             g = body.guards(bi, expand_vars=True)
-            eq, paths = author_eq(g)
+            eq, paths = author_eq(g, body=body)
             out.append((r, eq, bi, paths))
     return out
 
@@ -312,7 +315,14 @@ def history_lookup_rule(P, C, rule):
         C.saw(b)
         gr = b.calls_to(r"Authorisation::get_right_at$")
         wild = [bi for bi, t in gr if any(mir.strip_refs(a)[0] == "const" and (mir.strip_refs(a)[1] == "*" or str(mir.strip_refs(a)[3]).endswith("WILDCARD_ENTITY")) for a in b.call_args(bi))]
-        C.ob(rule, "right-lookup:entity-then-wildcard", len(gr) == 2 and len(wild) == 1, b.loc(), "the entity's own right entry decides; the wildcard entry only when the entity has none")
+        fallback = False
+        if len(gr) == 2 and len(wild) == 1:
+            ent = [bi for bi, t in gr if bi != wild[0]][0]
+            for s_, vals, term in b.guards(wild[0], expand_vars=True):
+                dv = mir.discr_variants(term, vals)
+                if dv and dv[1] == ["None"] and any(x[0] == "call" and x[3] == ent for x in mir.subterms(dv[0])):
+                    fallback = True
+        C.ob(rule, "right-lookup:entity-then-wildcard", len(gr) == 2 and len(wild) == 1 and fallback, b.loc(), "the entity's own right entry decides; the wildcard entry is looked up only on the None edge of the entity's lookup")
     # Room::can combines membership at the date with the group's right at the date
     b = P.body("database::room::Room::can", required=False)
     if b is not None:
